@@ -43,8 +43,13 @@ def run(ctx):
     objs = {(d, k): GKLS(d, k) for (d, k) in fns}
     order = list(fns)
     rng.shuffle(order)
-    byfn = {(d, k): build_record(d, k, rng, golden, problem=objs[(d, k)]) for (d, k) in order}
+    # the random-stream oracle (KnuthRNG.tla, about 7 s of TLC per function) for a subset in the quick tier, for all in the thorough tier
+    streamed = set(order[:8]) if qk else set(order)
+    byfn = {(d, k): build_record(d, k, rng, golden, problem=objs[(d, k)], stream=(d, k) in streamed) for (d, k) in order}
     recs = [byfn[f] for f in fns]
+    recs.sort(key=lambda r: (not r["rng"]))
+    k = max(1, min(16, len(recs) // 6))
+    recs = [recs[i] for j in range(k) for i in range(j, len(recs), k)]     # interleave so that every TLC batch gets its share of stream checks
     # binding demonstration: a perturbed parameter / value must be rejected
     import copy
     bad = copy.deepcopy(recs[0])
@@ -73,7 +78,7 @@ def run(ctx):
         "rule": "one case per (dimension, number); all distinct; every case has points of all three kinds",
         "samples": [{"dim": recs[0]["dim"], "nf": recs[0]["nf"], "first_points": recs[0]["pts"][10:13]}],
         "functions": len(recs), "points_recomputed": npts, "points_by_branch": kinds, "boundary_pairs": npairs,
-        "reference_values_compared": 50 * len(recs), "corrupted_records_rejected": 2, "exhaustive": not qk,
+        "reference_values_compared": 50 * len(recs), "functions_checked_against_the_exact_random_stream": len(streamed), "corrupted_records_rejected": 2, "exhaustive": not qk,
     }
     return finish(ctx, "other", cov, [
         "parameters are read from the public attributes GKLS.function.GKLS_minima of the generated object",
